@@ -20,13 +20,14 @@ import pandas as pd
 from hypothesis import strategies as st
 from sklearn.base import clone
 
-from vf.learners import ExactTable, ExactTableRegressor, ScoreColumn
+from vf.learners import ExactTable, ExactTableRegressor, ScoreColumn, ShiftScorer
 from vf.runner import PropertyViolation, Skip, Sub
 
 PROPERTY = "C19"
 LEVEL = "exploration"
 RULE = (
-    "Histories = sequences of 1..4 operations from {fit(D1), fit(D2), predict(seed), pickle, clone} on "
+    "Histories = sequences of 1..4 operations from {fit(D1), fit(D2), predict(seed), pickle, clone} (plus set_params "
+    "re-configuration between fits and prediction on the other dataset) on "
     "ThresholdOptimizer, ExponentiatedGradient, GridSearch, CorrelationRemover and the adversarial "
     "classifier/regressor (warm_start=False, PyTorch), with drawn configurations and two drawn datasets "
     "(for CorrelationRemover also of different width and different DataFrame column layout); all 5^1..5^4 "
@@ -42,8 +43,23 @@ ASSUMPTIONS = [
     "pickle round trips are demanded for ThresholdOptimizer, ExponentiatedGradient, GridSearch and CorrelationRemover only",
 ]
 
+# configuration key -> constructor parameter that set_params may change between fits, and alternative values
+RECONF_PARAM = {
+    "to": {"grid_size": "grid_size", "flip": "flip"},
+    "eg": {"eps": "eps", "max_iter": "max_iter", "eta0": "eta0", "lp": "run_linprog_step"},
+    "gs": {"grid_size": "grid_size", "grid_limit": "grid_limit", "cw": "constraint_weight"},
+    "cr": {"alpha": "alpha"},
+    "adv": {"lr": "learning_rate", "alpha": "alpha", "epochs": "epochs", "batch_size": "batch_size"},
+}
+RECONF_VALUES = {
+    "to": {"grid_size": [2, 3, 10, 40, 1000], "flip": [True, False]},
+    "eg": {"eps": [0.01, 0.05, 0.2], "max_iter": [2, 5, 10], "eta0": [0.5, 2.0], "lp": [True, False]},
+    "gs": {"grid_size": [3, 4, 6, 11], "grid_limit": [0.5, 1.0, 2.0], "cw": [0.0, 0.5, 1.0]},
+    "cr": {"alpha": [1.0, 0.5, 0.0]},
+    "adv": {"lr": [0.1, 0.01], "alpha": [0.0, 1.0], "epochs": [1, 2], "batch_size": [-1, 3, 4]},
+}
 OPS = ["fit1", "fit2", "predict", "pickle", "clone"]
-EXTRA_OPS = ["predict_other"]  # sampled histories only: predict / transform on the *other* dataset
+EXTRA_OPS = ["predict_other", "reconfig"]  # sampled histories only: predict / transform on the *other* dataset
 
 
 # ---- adapters: build / fit / state / predict per estimator kind ---------------------------------------------
@@ -66,6 +82,12 @@ class _Adapter:
 
     def data(self, k):
         return self.case["D%d" % k]
+
+    def updates(self, c2):
+        """(set_params keyword arguments, configuration keys) that re-configure the estimator as drawn in c2."""
+        names = RECONF_PARAM[self.case["estimator"]]
+        keys = [k for k in c2 if k in names]
+        return {names[k]: c2[k] for k in keys}, keys
 
     def check_params(self, est, before, what):
         after = est.get_params(deep=False)
@@ -111,8 +133,10 @@ class _TO(_Adapter):
         from fairlearn.postprocessing import ThresholdOptimizer
 
         c = self.cfg
-        return ThresholdOptimizer(estimator=ScoreColumn(), constraints=c["constraint"], objective=c["objective"],
+        est = ShiftScorer() if (c.get("scorer") == "shift" and not c["prefit"]) else ScoreColumn()
+        return ThresholdOptimizer(estimator=est, constraints=c["constraint"], objective=c["objective"],
                                   grid_size=c["grid_size"], flip=c["flip"], prefit=c["prefit"], predict_method="predict")
+
 
     def _xy(self, k):
         d = self.data(k)
@@ -141,6 +165,7 @@ class _EG(_Adapter):
         learner = ExactTableRegressor() if c["moment"] == "BoundedGroupLoss" else ExactTable()
         return fr.ExponentiatedGradient(learner, _moment(c["moment"], c["bound"]), eps=c["eps"], max_iter=c["max_iter"],
                                         nu=c["nu"], eta0=c["eta0"], run_linprog_step=c["lp"])
+
 
     def _xy(self, k):
         d = self.data(k)
@@ -178,6 +203,7 @@ class _GS(_EG):
         return fr.GridSearch(learner, _moment(c["moment"], c["bound"]), grid_size=c["grid_size"], grid_limit=c["grid_limit"],
                              constraint_weight=c["cw"])
 
+
     def fit(self, est, k):
         X, y, g = self._xy(k)
         return est.fit(X, y, sensitive_features=g)
@@ -199,6 +225,7 @@ class _CR(_Adapter):
         from fairlearn.preprocessing import CorrelationRemover
 
         return CorrelationRemover(sensitive_feature_ids=list(self.cfg["ids"]), alpha=self.cfg["alpha"])
+
 
     def _x(self, k):
         d = self.data(k)
@@ -230,6 +257,7 @@ class _ADV(_Adapter):
                    adversary_optimizer="SGD", learning_rate=c["lr"], alpha=c["alpha"], epochs=c["epochs"],
                    batch_size=c["batch_size"], shuffle=False, constraints=c["constraints"], warm_start=False,
                    random_state=c["seed"])
+
 
     def _xy(self, k):
         d = self.data(k)
@@ -322,6 +350,21 @@ def check(case):
             if not _same(before, ad.state(est, fitted_on)):
                 raise PropertyViolation(f"{what}: predict altered the fitted state")
             ad.check_params(est, params0, what)
+        elif op == "reconfig":
+            # set_params between fits: later fits must behave like a fresh estimator built with the new parameters
+            c2 = case.get("config2")
+            if not c2:
+                continue
+            upd, keys = ad.updates(c2)
+            if not upd:
+                continue
+            merged = dict(ad.cfg)
+            merged.update({k: c2[k] for k in keys})
+            est.set_params(**upd)
+            ad.cfg = merged
+            params0 = est.get_params(deep=False)
+            fitted_on = None  # whatever was fitted belongs to the old configuration
+            tags.add("reconfig")
         elif op == "predict_other":
             if fitted_on is None:
                 continue
@@ -485,8 +528,14 @@ def _adv_hist(draw):
                        "seed": draw(st.integers(0, 5))}}
 
 
-def _hist_strategy():
-    return st.one_of(_to_hist(), _eg_hist(), _gs_hist(), _cr_hist(), _adv_hist(), _eg_hist(), _gs_hist())
+@st.composite
+def _hist_strategy(draw):
+    h = draw(st.one_of(_to_hist(), _eg_hist(), _gs_hist(), _cr_hist(), _adv_hist(), _eg_hist(), _gs_hist()))
+    vals = RECONF_VALUES[h["estimator"]]
+    h["config2"] = {k: draw(st.sampled_from(v)) for k, v in vals.items()}
+    if h["estimator"] == "to":
+        h["config"]["scorer"] = draw(st.sampled_from(["column", "shift"]))
+    return h
 
 
 # ---- exhaustive histories ------------------------------------------------------------------------------------------
@@ -502,17 +551,36 @@ _CR_D = [
 ]
 
 
+_RED_D = [
+    {"g": [1, 0, 0, 1, 0, 1, 0, 1, 1, 0, 0, 1, 0, 0], "y": [0, 1, 1, 0, 1, 0, 0, 1, 1, 0, 1, 1, 0, 1],
+     "levels": [0, 2, 1, 0, 1, 2, 0, 0, 1, 2, 2, 1, 0, 1], "yreal": [0.0] * 14, "scores": [0.0] * 14, "X": [[0.0]] * 14},
+    {"g": [0, 0, 1, 1, 0, 1, 1, 0, 1, 0, 1, 0], "y": [1, 0, 0, 1, 1, 1, 0, 0, 1, 0, 1, 0],
+     "levels": [1, 1, 0, 2, 0, 2, 1, 0, 0, 2, 1, 2], "yreal": [0.0] * 12, "scores": [0.0] * 12, "X": [[0.0]] * 12},
+]
+
+
 def _enumerate(tier):
     max_len = 3 if tier == "quick" else 4
-    seqs = [list(s) for L in range(1, max_len + 1) for s in itertools.product(OPS, repeat=L)]
-    to_cfgs = [{"constraint": "equalized_odds", "objective": "accuracy_score", "grid_size": 10, "flip": True, "prefit": False},
-               {"constraint": "demographic_parity", "objective": "balanced_accuracy_score", "grid_size": 1000, "flip": False, "prefit": True}]
-    cr_cfgs = [{"ids": ["s"], "alpha": 1.0, "frame": True}, {"ids": [0], "alpha": 0.5, "frame": False}]
+    seqs = [list(s) for L in range(1, max_len + 1) for s in itertools.product(OPS + ["reconfig"], repeat=L)]
+    to_cfgs = [({"constraint": "equalized_odds", "objective": "accuracy_score", "grid_size": 10, "flip": True, "prefit": False,
+                 "scorer": "shift"}, {"grid_size": 3, "flip": False}),
+               ({"constraint": "demographic_parity", "objective": "balanced_accuracy_score", "grid_size": 2, "flip": False,
+                 "prefit": True, "scorer": "column"}, {"grid_size": 40, "flip": True})]
+    cr_cfgs = [({"ids": ["s"], "alpha": 1.0, "frame": True}, {"alpha": 0.5}), ({"ids": [0], "alpha": 0.5, "frame": False}, {"alpha": 1.0})]
     for s in seqs:
-        for cfg in to_cfgs:
-            yield {"estimator": "to", "ops": s, "seed": 3, "D1": _TO_D[0], "D2": _TO_D[1], "config": cfg}
-        for cfg in cr_cfgs:
-            yield {"estimator": "cr", "ops": s, "seed": 0, "D1": _CR_D[0], "D2": _CR_D[1], "config": cfg}
+        if s.count("reconfig") > 1:
+            continue
+        for cfg, cfg2 in to_cfgs:
+            yield {"estimator": "to", "ops": s, "seed": 3, "D1": _TO_D[0], "D2": _TO_D[1], "config": dict(cfg), "config2": cfg2}
+        for cfg, cfg2 in cr_cfgs:
+            yield {"estimator": "cr", "ops": s, "seed": 0, "D1": _CR_D[0], "D2": _CR_D[1], "config": dict(cfg), "config2": cfg2}
+        if len(s) <= max_len - 1:  # the reductions are costlier: one operation fewer
+            yield {"estimator": "gs", "ops": s, "seed": 0, "D1": _RED_D[0], "D2": _RED_D[1],
+                   "config": {"moment": "DemographicParity", "bound": 0.01, "grid_size": 11, "grid_limit": 2.0, "cw": 0.0},
+                   "config2": {"cw": 1.0, "grid_size": 6}}
+            yield {"estimator": "eg", "ops": s, "seed": 5, "D1": _RED_D[0], "D2": _RED_D[1],
+                   "config": {"moment": "EqualizedOdds", "bound": 0.05, "eps": 0.05, "max_iter": 5, "nu": 1e-3, "eta0": 2.0, "lp": False},
+                   "config2": {"eps": 0.2, "lp": True}}
 
 
 def in_d9(sub_name, case):
